@@ -172,8 +172,7 @@ def analyse_mode(ctx, repo, noncorr: bool):
         ctx.check(good, "LIN", f"{tag}.window.slice", "slice has stop-start = tau+1 and stride tau (exactly the two elements "
                   "k and k+tau for tau>=1)", w_, "seq[k: k + len_window + 1: len_window]",
                   witness=f"stop-start = {(hi - lo).pretty()}, stride = {st_.pretty()}")
-    if not sl:
-        ctx.inconclusive("LIN", f"{tag}.window.slice", "window slice not found", where, witness="no strided slice interpreted")
+    no_strided_slice = not sl
 
     # ---------------------------------------------------------------- count emissions
     # follow B back to the dok object
@@ -313,6 +312,15 @@ def analyse_mode(ctx, repo, noncorr: bool):
         if c.args[0] == "any" and isinstance(c.args[1], Grid) and isinstance(c.args[1].elem, CondV) and \
                 c.args[1].elem.kind == "opaque" and c.args[1].elem.args[0] == "isnan":
             nan_guard = True
+            W = c.args[1]
+            ext = W.dim_len(0)
+            ctx.instance("LIN")
+            if ext == Poly.const(2):
+                ctx.ok("LIN", f"{tag}.nan.extent", "the NaN test looks at exactly the two frames of the window", where)
+            else:
+                ctx.violate("LIN", f"{tag}.nan.extent", "the NaN test covers more frames than the two end points of the window: a valid pair "
+                            "(x_k, x_{k+tau}) is dropped whenever an unassigned frame lies strictly between them", where,
+                            "if not np.isnan(<window>).any()", witness=f"tested frames: {ext.pretty()} (expected 2); e.g. [0, nan, 1] with tau = 2")
         if c.args[0] == "isnan" and isinstance(c.args[1], Num):
             per_elem.add(c.args[1].p)
     if a in per_elem and b in per_elem:
